@@ -35,7 +35,7 @@ CLAIMS = {
   technique="static analysis: who-may-write check + CFG must-follow/must-precede on go/ssa",
   ref="DESIGN.md §4 C08"),
  "C11": dict(
-  text="Structural clauses of 'lookup, enumeration and coverage agree': (R-SIB) every type of package font that implements Cmap by embedding a Cmap and declares its own Lookup also declares Iter — three genuine findings (the symbol / legacy-Arabic remappers) are listed as known findings; (R-COV) both coverage builders of fontscan are fed with the cmap the face uses (Font.Cmap, respectively font.ProcessCmap(tables.ParseCmap(raw), page), the constructor NewFont stores into Font.Cmap); (R-TAB) ScriptRanges sorted and disjoint, the precondition of the merge in scriptsFromRanges. Agreement of Lookup and Iter inside each cmap format, RuneSet algebra and page arithmetic are NOT decided.",
+  text="Structural clauses of 'lookup, enumeration and coverage agree': (R-SIB) every type of package font that implements Cmap by embedding a Cmap and declares its own Lookup also declares Iter — the three findings of the pinned tree (the symbol / legacy-Arabic remappers) were repaired and their revert is part of the thorough tier; (R-COV) both coverage builders of fontscan are fed with the cmap the face uses (Font.Cmap, respectively font.ProcessCmap(tables.ParseCmap(raw), page), the constructor NewFont stores into Font.Cmap), and the font page the scanner hands to ProcessCmap is (Os2).FontPage() read on the edge where ParseOs2 succeeded (it was read on the error edge on the pinned tree: repaired); (R-TAB) ScriptRanges sorted and disjoint, the precondition of the merge in scriptsFromRanges. Agreement of Lookup and Iter inside each cmap format, RuneSet algebra and page arithmetic are NOT decided.",
   note="method sets from go/types; SSA def-use for the coverage source",
   technique="static analysis: sibling-method agreement over go/types method sets + SSA value-origin check + table evaluation",
   ref="DESIGN.md §4 C11"),
